@@ -721,3 +721,36 @@ def example_abd(res):
                      "2 servers / 2 clients: the example's own tests (assert 544, BFS and DFS) %s, TLC distinct=%d" % (
                          recs[0]["unique"], recs[0]["states"], r31["distinct"], r31["generated"], "pass" if own_ok else "FAIL", r22["distinct"]))
     shutil.rmtree(wd, ignore_errors=True)
+
+
+def example_paxos(res, clients=(1, 2, 3)):
+    """Paxos.tla (single-decree Paxos of examples/paxos.rs with its register clients, recorded tester state and network as
+    a spec; invariants Linearizable, Agreement, Validity) vs the real example run by the real checker: unique and generated
+    state counts must be exactly TLC's for 3 servers and 1-3 clients (265/482, 16 668/32 971, 1 194 428/2 420 477)."""
+    import subprocess, re
+    wd = workdir("expaxos-%s" % res.pid)
+    env = dict(os.environ, CARGO_NET_OFFLINE="true")
+    recs = []
+    for c in clients:
+        r = run_tlc("Paxos.tla", "cfg/Paxos_3_%d.cfg" % c, workers=8, timeout=3400, heap="12g", name="paxos-3-%d" % c)
+        res.add_tlc(r, "Paxos[3 servers, %d clients]" % c)
+        if not r["ok"]:
+            raise ToolError("Paxos.tla: %s violated on the SPEC" % r["violated"])
+        p = subprocess.run(["cargo", "run", "--offline", "--release", "--example", "paxos", "--", "check", str(c), "unordered_nonduplicating"],
+                           cwd="/repo", env=env, stdout=subprocess.PIPE, stderr=subprocess.STDOUT, text=True, timeout=3000)
+        m = re.search(r"Done\. states=(\d+), unique=(\d+)", p.stdout)
+        if not m:
+            raise ToolError("examples/paxos did not report a result:\n" + p.stdout[-1500:])
+        recs.append(dict(n=c, symmetry=False, states=int(m.group(1)), unique=int(m.group(2)), tlc_distinct=r["distinct"], tlc_generated=r["generated"],
+                         tlc_orbits=0, found_commit=True, found_abort='Discovered "value chosen"' in p.stdout,
+                         found_inconsistent='Discovered "linearizable"' in p.stdout))
+    rp, op = os.path.join(wd, "ex.ndjson"), os.path.join(wd, "ex.json")
+    write_ndjson(rp, recs)
+    run_tlc("JudgeExamples.tla", "cfg/empty.cfg", env=dict(RECS=rp, OUT=op), timeout=300, name="jexpaxos")
+    o = json.load(open(op))
+    for i in o["bad"]:
+        res.violation("example_paxos", dict(check="example_paxos", record=recs[i - 1]))
+    res.traces += len(recs)
+    res.notes.append("examples/paxos.rs vs Paxos.tla (3 servers): " + "; ".join(
+        "%d clients: stateright unique=%d states=%d, TLC distinct=%d generated=%d" % (x["n"], x["unique"], x["states"], x["tlc_distinct"], x["tlc_generated"]) for x in recs))
+    shutil.rmtree(wd, ignore_errors=True)
